@@ -15,6 +15,12 @@ quick.append(job("c20.twice", xproc=40, secs=60, model=SCALER, n=3, d=2, reps=3)
 quick.append(job("c20.twice", xproc=40, secs=60, allow=("div0",), model=OLS, n=3, d=1, reps=3))
 quick.append(job("c20.twice", xproc=40, secs=60, allow=("inexact",), model=ENET, n=2, d=1, reps=2, qto=2000))
 
+# k-means on 600-2100 rows (the only estimator with rayon-parallel loops): one symbolic row, witnesses replayed under
+# rayon pools of 1, 8 and 3 threads, with and without the non-dyadic input offsets
+for metric in (3, 4):
+    quick.append(job("c09.lloyd_wide", xproc=8, secs=60, allow=("inexact",), n=600, k=2, d=1, sym=1, m=2, metric=metric))
+    quick.append(job("c09.lloyd_wide", xproc=8, secs=90, allow=("inexact",), n=2100, k=3, d=2, sym=1, metric=metric))
+
 thorough = list(quick)
 for pattern in (0b0110, 0b0011, 0b0101, 0b01110, 0b10010):
     thorough.append(job("c20.twice", xproc=40, secs=600, jobs=8, model=TREE, n=5, d=1, reps=8, pattern=pattern))
